@@ -2,6 +2,7 @@ import Percival.Driver.Loop
 import Percival.Model.Parsenum
 import Percival.Model.ParsenumFloat
 import Percival.Model.Humansize
+import Percival.Spec.HumansizeExec
 /-! `pmodel parsenum`: line protocol of `harness/h_parsenum.c` (driver code, not part of any theorem). -/
 namespace Percival.Driver.Parsenum
 open Percival.Model Percival.Driver
@@ -83,41 +84,7 @@ def showFloat (o : FOutcome) : String :=
       | .erange => "ERANGE"
     s!"{a} | x={showFl x}"
 
-/-! Executable reading of `Spec/Humansize.lean` by enumeration (the L1 judge for `hs_*`; the model's own
-    answer goes to the L2 part, so a changed constant in the C shows up as a concrete L1 failure). -/
-
-open Percival.Spec.Humansize in
-/-- all `(suffix, k)` of the language ` ?[kMGTPE]?B?` -/
-def allSuffixes : List (List UInt8 × Nat) :=
-  let pres : List (List UInt8 × Nat) := ([], 0) :: (List.range 7).filterMap fun k =>
-    if k = 0 then none else (siPrefixes[k]?).map fun c => ([c], k)
-  [[], [0x20]].flatMap fun sp => pres.flatMap fun (pre, k) => [[], [0x42]].map fun b => (sp ++ pre ++ b, k)
-
-open Percival.Spec.Humansize Percival.Spec.Numeral in
-def specParse (s : List UInt8) : Option Nat :=
-  let ds := s.takeWhile (isDigit 10)
-  let r := s.dropWhile (isDigit 10)
-  if ds.isEmpty then none else
-  match digitsVal 10 0 ds, allSuffixes.find? (fun p => p.1 == r) with
-  | some n, some (_, k) => if n * 1000 ^ k ≤ U64MAX then some (n * 1000 ^ k) else none
-  | _, _ => none
-
-open Percival.Spec.Humansize in
-def allForms : List Form :=
-  (List.range 1000).map Form.bytes ++
-  (List.range 7).flatMap fun k => if k = 0 then [] else
-    ((List.range 100).filterMap fun x => if x ≥ 10 then some (Form.dec (x / 10) (x % 10) k) else none) ++
-    ((List.range 1000).filterMap fun x => if x ≥ 10 then some (Form.int x k) else none)
-
-open Percival.Spec.Humansize in
-def specFormat (n : Nat) : Option (List UInt8) :=
-  let best := allForms.foldl (fun (acc : Option Form) f =>
-    if f.value ≤ n then
-      match acc with
-      | some g => if g.value < f.value then some f else acc
-      | none => some f
-    else acc) none
-  best.bind Form.render
+open Percival.Spec.HumansizeExec (specParse specFormat)
 
 def step (_ : Unit) (toks : List String) : Unit × String :=
   match toks with
